@@ -208,6 +208,19 @@ def alias_is_stable(ctx, f: FunctionInfo, defstmt, use_node: ast.AST, value: ast
     return True
 
 
+def _phi(ctx, f, defs, name):
+    """(if-statement, definition on the true branch, definition otherwise) for a two-definition merge, else None."""
+    a, b = sorted(defs, key=lambda s: (s.lineno, s.col_offset))
+    pa, pb = parent(a), parent(b)
+    if isinstance(pb, ast.If) and pa is pb:
+        if a in pb.body and b in pb.orelse:
+            return pb, a, b
+        return None
+    if isinstance(pb, ast.If) and b in pb.body and not pb.orelse and ctx.cfg(f).dominates(a, pb):
+        return pb, b, a
+    return None
+
+
 def inline_locals(ctx, f: FunctionInfo, node: ast.AST, *, depth: int = 6, keep=()) -> ast.AST:
     """Copy of expression `node` in which every local name with exactly one reaching definition `name = <expr>` is replaced by
     <expr> (recursively), provided the alias is stable (see alias_is_stable).  Parameters and names in `keep` stay."""
@@ -226,6 +239,17 @@ def inline_locals(ctx, f: FunctionInfo, node: ast.AST, *, depth: int = 6, keep=(
                                                     ast.Compare, ast.Constant, ast.IfExp, ast.Tuple, ast.BoolOp, ast.JoinedStr)):
                     if alias_is_stable(ctx, f, defs[0], n if origin is None else origin, v):
                         return T(v, d - 1, None)
+            elif len(defs) == 2 and all(isinstance(x, ast.Assign) for x in defs):
+                # two-way merge: `if c: x = a else: x = b`  or  `x = b; if c: x = a`  ->  (a if c else b)
+                phi = _phi(ctx, f, defs, n.id)
+                if phi is not None:
+                    g, da, db = phi
+                    use = n if origin is None else origin
+                    va, vb = assigned_value(da, n.id), assigned_value(db, n.id)
+                    if va is not None and vb is not None and alias_is_stable(ctx, f, da, use, va) and alias_is_stable(ctx, f, db, use, vb) \
+                            and alias_is_stable(ctx, f, da, use, g.test):
+                        e = ast.IfExp(test=T(g.test, d - 1, None), body=T(va, d - 1, None), orelse=T(vb, d - 1, None))
+                        return ast.copy_location(e, n)
             return _copy.copy(n)
         if not isinstance(n, ast.AST):
             return n
